@@ -109,6 +109,9 @@ def c01(pid, tier, seed):
             MsgShapes=("a", "W1", "nlA"), TextShapes=("T", "TW1")),
         fam("single_pty", W=6, H=5, D=4 if q else 5, BarOps=("tick", "set_message", "println", "finish", "finish_and_clear", "drop"),
             MsgShapes=("a", "W1", "nlA"), TextShapes=("T", "TW1"), Fins=("AndLeave", "AndClear"), Tgt="pty", DTs=(0, 5000), M0="id"),
+        # ProgressBar::set_draw_target on a standalone bar: hidden <-> terminal; an abandoned frame stays on the terminal as text
+        fam("single_retarget", W=6, H=8, D=5 if q else 6, BarOps=("tick", "set_message", "println", "set_target", "finish", "finish_and_clear"),
+            MsgShapes=("a", "W1"), TextShapes=("T",), Tpls=("MnC",), Fins=("AndLeave",)),
         fam("design_single", W=3, H=4, D=7 if q else 8, BarOps=("tick", "set_message", "println", "suspend", "finish", "finish_and_clear", "reset", "drop"),
             MsgShapes=("e", "a", "W", "W1", "nlA", "Anl", "WnnA"), TextShapes=("T", "TW1", "e", "TWnnT"), Tpls=("M", "PnM"), Fins=("AndLeave", "AndClear"),
             model="MC_Single", extra=dict(MaxLog=2, TextOnlyNewline=True)),
@@ -131,11 +134,17 @@ def c02(pid, tier, seed):
             Tpls=("M",), Fins=("AndLeave",), M0="id", shards=12),
         fam("multi_life", W=4, H=8, Multi=True, MaxBars=2, D=5 if q else 6, BarOps=("tick", "set_message", "finish", "finish_and_clear", "drop", "mp_remove"),
             MpOps=("mp_println", "mp_clear"), MsgShapes=("a", "W1"), TextShapes=("T",), Fins=("AndLeave", "AndClear"), M0="id", shards=12),
+        # members unlinked by set_draw_target, removed and added again (MultiProgress::add of an existing bar moves it to the end)
+        fam("multi_relink", W=6, H=10, Multi=True, MaxBars=3, Pre=2, D=6, BarOps=("tick", "set_target", "readd", "mp_remove", "finish", "drop") + (() if q else ("set_message",)),
+            MpOps=("mp_println", "insert"), MsgShapes=("a", "W1"), TextShapes=("T",), Tpls=("M",), Fins=("AndLeave",), M0="idw", shards=12),
     ] + ([] if q else [
         fam("multi_zombie_orders", W=4, H=12, Multi=True, MaxBars=3, Pre=3, Once=True, D=11, BarOps=("finish", "drop"), MpOps=("mp_println",),
             TextShapes=("T",), Tpls=("M",), Fins=("AndLeave",), M0="id", shards=12)]) + [
         fam("design_multi", W=4, H=14, Multi=True, MaxBars=3, Pre=2, Once=True, D=7 if q else 8, BarOps=("tick", "finish", "drop", "println", "set_message"),
             MpOps=("mp_println", "mp_clear"), MsgShapes=("a", "W1"), TextShapes=("T",), Tpls=("M",), Fins=("AndLeave",), M0="id", Base=0,
+            model="MC_Multi", extra=dict(MaxLog=2, TextOnlyNewline=True, ZombieAccounting="repaired")),
+        fam("design_multi_relink", W=4, H=14, Multi=True, MaxBars=3, Pre=2, Once=True, D=6 if q else 7, BarOps=("tick", "finish", "drop", "set_target", "readd", "mp_remove"),
+            MpOps=("mp_println",), MsgShapes=("a",), TextShapes=("T",), Tpls=("M",), Fins=("AndLeave",), M0="id", Base=0,
             model="MC_Multi", extra=dict(MaxLog=2, TextOnlyNewline=True, ZombieAccounting="repaired")),
         fam("multi_zombie_cover", W=4, H=14, Multi=True, MaxBars=4, Pre=3, Once=True, Cover=True, D=11 if q else 15, BarOps=("finish", "drop", "tick"), MpOps=(),
             Tpls=("M",), Fins=("AndLeave",), M0="id", shards=12),
@@ -244,6 +253,9 @@ def c06(pid, tier, seed):
            "reset", "force_draw", "set_tab_width", "set_style", "drop", "iter", "is_hidden")
     fams = [
         fam("hidden_target", W=10, H=5, D=4 if q else 5, BarOps=ops, MsgShapes=("a", "tab"), TextShapes=("T",), Tpls=("MnC",), Fins=("AndLeave", "AndClear"), Tgt="hidden"),
+        # a bar born hidden, shown later with set_draw_target and hidden again: silent exactly while hidden
+        fam("hidden_then_shown", W=6, H=8, D=5 if q else 6, BarOps=("tick", "inc", "set_message", "println", "set_target", "finish", "reset"), MsgShapes=("a", "W1"), TextShapes=("T",),
+            Tpls=("MnC",), Fins=("AndLeave",), Tgt="hidden"),
         fam("not_a_tty", W=10, H=5, D=4 if q else 5, BarOps=ops, MsgShapes=("a",), TextShapes=("T",), Tpls=("MnC",), Fins=("AndLeave", "WithMessage"), Tgt="pipe"),
         fam("hidden_multi", W=10, H=5, Multi=True, MaxBars=2, D=4, BarOps=ops + ("mp_remove",), MpOps=("mp_println", "mp_clear", "mp_suspend", "insert"),
             MsgShapes=("a",), TextShapes=("T",), Tpls=("MnC",), Fins=("AndLeave", "AndClear"), Tgt="hidden", M0="id", shards=12),
